@@ -95,18 +95,17 @@ TEXT = {
           "heapify_down from 'broken between one position and its children' (siftDown_ok), so push, pop and remove keep it "
           "(C20_heap_push_ok, C20_heap_pop_ok, C20_heap_remove_ok), every heap reachable from the empty one is in heap order "
           "(C20_heap_reachable_ok), and the element returned by peek / pop is at least every element of the array (C20_heap_peek_max). "
-          "The table mirror never loses or duplicates an element: the backward shift of a removal only moves elements (shiftBack_perm), a "
-          "successful insert enumerates the old elements plus the new one and a successful remove the old elements minus one with the "
-          "key asked for (C20_hset_insert_perm_any - also when the table grows: extend_perm, every element finds a free slot of the doubled table - and "
-          "C20_hset_remove_perm; unsuccessful calls change nothing; the slot array is non-empty in every reachable state, "
-          "C20_hset_reachable_size). The probe-chain "
-          "invariant (every stored element sits at an offset from its home slot with no empty slot on the way) makes every stored key "
-          "reachable (contains_complete) and is kept by insert and by the re-hash of the growth (pc_fill, insert_pc, extend_pc); with the "
-          "load-factor bookkeeping (insert_good: there is always a free slot, so every probe answers) membership after any history of "
-          "insertions is exactly 'a polynomial with this key was inserted' (C20_hset_insert_only_partial). PARTIAL: that the backward "
-          "shift of a removal keeps the probe-chain invariant is not proved (histories with removals: correspondence only).",
+          "The table mirror refines the mathematical set for EVERY history of insertions and removals (C20_hset_refines): the probe-chain "
+          "invariant (every stored element sits at an offset from its home slot with no empty slot on the way) is kept by insert, by "
+          "the re-hash of the growth (insert_pc, extend_pc, insert_good) and by the backward shift of a removal (shiftBack_pc: loop "
+          "invariant SInv kept when the next element moves into the hole and when it stays, and giving the invariant everywhere at the "
+          "first empty slot; the C distance test is read as a comparison of offsets, dist_eq; remove_good); no element is lost or "
+          "duplicated (shiftBack_perm, extend_perm). Hence, for all histories and colliding hashes: every answer of insert / remove is "
+          "the answer of the set (C20_hset_answers), contains is membership (C20_hset_contains), the size field is the cardinality and "
+          "the enumeration after close lists every key exactly once (C20_hset_enumeration). Hypothesis: equal keys (equal polynomials) "
+          "have equal hashes. intersect / clear / insert_vector of the table and the vector are tied by correspondence only.",
   "design_ref": "5.20",
-  "note": "proof covers the reference semantics, the heap mirror (multiset and heap order for every history) and basic lemmas of the table mirror; the refinement mirror -> reference is checked per history (20k histories per quick run with forced collisions, wrap-around, growth), not proved; elements abstracted to (identity, reported hash)",
+  "note": "proved for every history: the heap mirror (multiset and heap order) and the table mirror under insert / remove (refinement to the mathematical set); the mirrors are tied to the C arrays slot by slot on 20k histories per quick run (forced collisions, wrap-around, growth); intersect / clear / insert_vector / vector: correspondence only; elements abstracted to (identity, reported hash)",
   "technique": "Lean 4 proved reference semantics + slot-exact mirror model + history-based differential correspondence",
  },
  "C01": {
